@@ -58,6 +58,25 @@ pub fn check(hist: &History, cfg: &HybCfg) -> Vec<Complaint> {
                     if !(resp_or_inf(w) < w2.invoke && r2 < l.invoke) {
                         continue;
                     }
+                    // Attribution: the returned version had been handed to a get_or_fetch caller (as a fetch
+                    // result or through an explicit insert that answered the waiting caller) who polled its
+                    // future only after the superseding call; under write-on-insertion that caller then
+                    // enqueued the older entry with the newest sequence.
+                    let gof_requeue = cfg.woi
+                        && hist.lookups.iter().any(|l0| {
+                            l0.kind == "gof"
+                                && l0.key == *key
+                                && l0.invoke < w2.invoke
+                                && l0.resp.map(|r| r > w2.invoke).unwrap_or(false)
+                                && matches!(&l0.res, LookupRes::Hit { ver: v0, source: 0, .. } if v0 == ver)
+                        });
+                    // Attribution: clear() does not reset the flusher's open blob; an insert after the clear
+                    // re-seals the blob index page with the slots of cleared entries, which recovery finds.
+                    let clear_reseal = w2.kind == WKind::Clear
+                        && l.epoch > w2.epoch
+                        && hist.writes.iter().any(|w3| {
+                            w3.epoch == w2.epoch && w3.invoke > w2.invoke && matches!(w3.kind, WKind::Insert { .. } | WKind::FetchInsert { .. })
+                        });
                     let tier = match source {
                         0 => "origin",
                         1 => "memory",
@@ -90,7 +109,7 @@ pub fn check(hist: &History, cfg: &HybCfg) -> Vec<Complaint> {
                                 continue;
                             }
                             out.push((
-                                "R.stale",
+                                if gof_requeue { "R.stale-gof-requeue" } else { "R.stale" },
                                 format!(
                                     "{}(k{}) returned v{ver} (served by {tier}) although v{} was inserted at t{}..t{} before the lookup started at t{}{}",
                                     l.kind,
@@ -104,7 +123,7 @@ pub fn check(hist: &History, cfg: &HybCfg) -> Vec<Complaint> {
                             ));
                         }
                         WKind::FetchInsert { .. } => out.push((
-                            "R.stale",
+                            if gof_requeue { "R.stale-gof-requeue" } else { "R.stale" },
                             format!(
                                 "{}(k{}) returned v{ver} (served by {tier}) although a fetch inserted v{} at t{}..t{} before the lookup started at t{}",
                                 l.kind, l.key, w2.ver, w2.invoke, r2, l.invoke
@@ -142,6 +161,10 @@ pub fn check(hist: &History, cfg: &HybCfg) -> Vec<Complaint> {
                                     "R.removed-inflight-load"
                                 } else if lookup_during_clear {
                                     "R.cleared-lookup-during-clear"
+                                } else if clear_reseal {
+                                    "R.cleared-resealed-after-restart"
+                                } else if gof_requeue {
+                                    "R.removed-gof-requeue"
                                 } else {
                                     "R.removed"
                                 },
